@@ -41,15 +41,28 @@ ELEM = {
     "float": 1, "uint8": 2, "int8": 3, "uint16": 4, "int16": 5, "int32": 6, "int64": 7,
     "string": 8, "bool": 9, "float16": 10, "double": 11, "uint32": 12, "uint64": 13,
     "complex64": 14, "complex128": 15, "bfloat16": 16,
+    "float8e4m3fn": 17, "float8e4m3fnuz": 18, "float8e5m2": 19, "float8e5m2fnuz": 20, "uint4": 21, "int4": 22,
 }
 ELEM_NAME = {v: k for k, v in ELEM.items()}
 # element types the generator uses (numpy has them natively)
-GEN_ELEMS = [1, 2, 3, 4, 5, 6, 7, 8, 9, 10, 11, 12, 13]
+GEN_ELEMS = [1, 2, 3, 4, 5, 6, 7, 8, 9, 10, 11, 12, 13, 14, 15]
+CONST_ELEMS = set(range(1, 14))  # element types the generator makes constants of
 NP_OF = {
     1: np.float32, 2: np.uint8, 3: np.int8, 4: np.uint16, 5: np.int16, 6: np.int32, 7: np.int64,
     8: np.str_, 9: np.bool_, 10: np.float16, 11: np.float64, 12: np.uint32, 13: np.uint64,
     14: np.complex64, 15: np.complex128,
 }
+try:  # the element types numpy does not have natively (spox takes them from ml_dtypes)
+    import ml_dtypes as _mld
+
+    for _k, _n in ((16, "bfloat16"), (17, "float8_e4m3fn"), (18, "float8_e4m3fnuz"), (19, "float8_e5m2"),
+                   (20, "float8_e5m2fnuz"), (21, "uint4"), (22, "int4")):
+        if hasattr(_mld, _n):
+            NP_OF[_k] = getattr(_mld, _n)
+            GEN_ELEMS.append(_k)
+except Exception:  # noqa: BLE001
+    pass
+ELEM_OF_NP = {np.dtype(v): k for k, v in NP_OF.items() if k != 8}
 
 
 # --------------------------------------------------------------------------------------- types
@@ -99,6 +112,24 @@ def proto_to_ty(tp: onnx.TypeProto, keep_param=lambda s: True):
     if tp.WhichOneof("value") is None:
         return None
     return {"other": tp.WhichOneof("value")}
+
+
+def proto_json(tp: onnx.TypeProto):
+    """A TypeProto field by field, presence included (the model's `PTy`): rank 0 = shape present
+    without dims, unknown rank = no shape; a dim carries a value, a parameter name, or nothing.
+    None for what the model's types cannot express (map, sparse, empty)."""
+    if tp.HasField("tensor_type"):
+        tt = tp.tensor_type
+        shape = None
+        if tt.HasField("shape"):
+            shape = [{"v": int(d.dim_value)} if d.HasField("dim_value") else {"p": str(d.dim_param)} if d.HasField("dim_param") else {}
+                     for d in tt.shape.dim]
+        return {"elem": int(tt.elem_type), "shape": shape}
+    for k, f in (("seq", "sequence_type"), ("opt", "optional_type")):
+        if tp.HasField(f):
+            inner = proto_json(getattr(tp, f).elem_type)
+            return None if inner is None else {k: inner}
+    return None
 
 
 def has_other(ty) -> bool:
@@ -285,8 +316,13 @@ def _pick(rng, weighted):
     return weighted[-1][0]
 
 
-def _rand_dims(rng, rank, sym_pool=("N", "M", "K")):
+SYM_POOLS = [(("N", "M", "K"), 84), (("batch_size", "N", "d_\u00e9"), 8), (("0", "unk_1", "N"), 8)]
+_SYM_POOL = [("N", "M", "K")]  # the pool of the call being generated (set by gen_call)
+
+
+def _rand_dims(rng, rank, sym_pool=None):
     dims = []
+    sym_pool = sym_pool or _SYM_POOL[0]
     for _ in range(rank):
         k = rng.random()
         if k < 0.72:
@@ -338,7 +374,7 @@ def _gen_attr_value(rng, op_name, aname, a, rank, is_dtype=False):
     r = max(rank, 1)
     if t == T.INT:
         if is_dtype:
-            return {"dtype": rng.choice([1, 6, 7, 9, 11, 10, 2])}
+            return {"dtype": rng.choice([1, 6, 7, 9, 11, 10, 2] + [x for x in (16, 17, 22) if x in NP_OF and rng.random() < 0.3])}
         if aname in ("to", "dtype", "output_datatype"):
             return rng.choice([1, 6, 7, 9, 11, 10, 2])
         if aname == "axis":
@@ -398,6 +434,26 @@ def _gen_attr_value(rng, op_name, aname, a, rank, is_dtype=False):
     if t == T.TYPE_PROTO:
         return {"type": {"t": rng.choice([1, 7]), "s": _rand_dims(rng, rng.randint(0, 2))}}
     return None  # GRAPH / SPARSE_TENSOR: not generated
+
+
+def _known_scalar(rng, call, v, p):
+    """with probability p make Var `v` (int / bool / float tensor with a concrete shape of at most 6
+    elements) a constant with a known value, and switch value propagation on for the call"""
+    if v is None or rng.random() >= p:
+        return
+    var = call["vars"][v]
+    t = var["ty"]
+    if t is None or "t" not in t or t["s"] is None or not all(isinstance(d, int) for d in t["s"]) or t["t"] not in CONST_ELEMS:
+        return
+    n = int(np.prod(t["s"] or [1]))
+    if n > 6:
+        return
+    if t["t"] in (6, 7):
+        data = [rng.choice([0, 1, 2, 3, 5]) for _ in range(n)]
+    else:
+        data = _const_data(rng, t["t"], t["s"])
+    var["const"] = {"dtype": t["t"], "shape": list(t["s"]), "data": data}
+    call.setdefault("vp", _pick(rng, [("default", 45), ("reference", 40), ("none", 15)]))
 
 
 def _gen_body_call(rng, op: Op, force: Optional[str] = None) -> dict:
@@ -486,6 +542,7 @@ def _gen_body_call(rng, op: Op, force: Optional[str] = None) -> dict:
             els = els[:-1] or els
         call = {"module": op.module, "op": "If", "vars": vars_, "args": [cond], "attrs": {},
                 "sub": {"then": then, "else": els}, "out_count": len(els), "family": family}
+        _known_scalar(rng, call, cond, 0.35)
     else:
         M = tvar(7 if family != "illtyped" or rng.random() < 0.6 else 6, [] if rng.random() < 0.8 else [1]) if rng.random() < 0.7 else None
         cond = tvar(cond_elem, cond_shape) if rng.random() < 0.7 else None
@@ -498,10 +555,53 @@ def _gen_body_call(rng, op: Op, force: Optional[str] = None) -> dict:
         scan = [pool_var(k) for k in range(rng.choice([0, 0, 1, 2]) if nc else rng.choice([1, 2]))]
         call = {"module": op.module, "op": "Loop", "vars": vars_, "args": [M, cond, carried], "attrs": {},
                 "sub": {"carried": csrc, "scan": scan}, "out_count": nc + len(scan), "family": family}
+        # a trip count / condition whose VALUE is known at the call: the number of iterations is still
+        # not (the body may end the loop), so nothing about the outputs may be derived from it
+        _known_scalar(rng, call, M, 0.5)
+        _known_scalar(rng, call, cond, 0.4)
+        for v in carried:
+            _known_scalar(rng, call, v, 0.15)
     if family == "untyped":
         present = [v for a in call["args"] for v in (a if isinstance(a, list) else [a]) if v is not None]
         if present:
             vars_[rng.choice(present)] = {"ty": None, "const": None}
+    return call
+
+
+# operators whose ONNX shape inference aborts the process natively on an empty constant operand
+# (seen: OneHot with an empty `depth`/`values` -> libstdc++ assertion): never given zero-size dims
+ZERO_DIM_FRAGILE = {"OneHot", "SplitToSequence"}
+
+
+def zeroize(rng, call) -> bool:
+    """Make one or two constant dimensions of the operands 0 (zero-size tensors: `if dim:` /
+    `if shape:` truthiness confuses 0 with unknown and () with None). Constants follow their type."""
+    if call["op"] in ZERO_DIM_FRAGILE:
+        return False
+    cands = []
+    for i, v in enumerate(call["vars"]):
+        t = v["ty"]
+        while t is not None and "t" not in t:
+            t = t.get("seq") or t.get("opt")
+        if t is not None and t["s"]:
+            cands += [(t, v, k) for k, d in enumerate(t["s"]) if isinstance(d, int) and d > 0]
+    if not cands:
+        return False
+    for t, v, k in rng.sample(cands, min(len(cands), rng.choice([1, 1, 2]))):
+        t["s"][k] = 0
+        if v["const"] is not None and v["ty"] is t:
+            v["const"] = {"dtype": t["t"], "shape": list(t["s"]), "data": []}
+    call["zero_dim"] = True
+    return True
+
+
+TWL = ["NONE", "CRITICAL", "INITIAL", "OUTPUTS"]
+
+
+def _ambient(rng, call):
+    """ambient scoped settings the verdict must not depend on: the type-warning level"""
+    if "skip" not in call and rng.random() < 0.1:
+        call["twl"] = rng.choice(TWL)
     return call
 
 
@@ -519,7 +619,7 @@ def constify(rng, call) -> bool:
     for v in dict.fromkeys(used):
         var = call["vars"][v]
         t = var["ty"]
-        if t is None or "t" not in t or t["t"] not in NP_OF or t["t"] in (14, 15):
+        if t is None or "t" not in t or t["t"] not in CONST_ELEMS:
             ok = False
             continue
         if var["const"] is not None:
@@ -549,8 +649,9 @@ def constify(rng, call) -> bool:
 def gen_call(rng, op: Op, force: Optional[str] = None) -> dict:
     """One abstract constructor call for `op`. `force` selects a calling-form family
     ("constfed": every operand a known constant, value propagation on)."""
+    _SYM_POOL[0] = _pick(rng, SYM_POOLS)
     if op.name in BODY_OPS:
-        return _gen_body_call(rng, op, "plain" if force == "constfed" else force)
+        return _ambient(rng, _gen_body_call(rng, op, "plain" if force == "constfed" else force))
     constfed = force == "constfed"
     if constfed:
         force = "plain"
@@ -646,7 +747,7 @@ def gen_call(rng, op: Op, force: Optional[str] = None) -> dict:
                     shape = [L]
                 ty = {"t": ty["t"], "s": shape}
                 const = {"dtype": ty["t"], "shape": shape, "data": data}
-            elif ty["s"] is not None and all(isinstance(d, int) for d in ty["s"]) and rng.random() < 0.07 and int(np.prod(ty["s"] or [1])) <= 24:
+            elif ty["s"] is not None and all(isinstance(d, int) for d in ty["s"]) and rng.random() < 0.07 and int(np.prod(ty["s"] or [1])) <= 24 and ty["t"] in CONST_ELEMS:
                 const = {"dtype": ty["t"], "shape": list(ty["s"]), "data": _const_data(rng, ty["t"], ty["s"])}
         vars_.append({"ty": ty, "const": const, "tstr": param.type_str})
         return len(vars_) - 1
@@ -696,7 +797,7 @@ def gen_call(rng, op: Op, force: Optional[str] = None) -> dict:
             e = rng.choice([x for x in GEN_ELEMS if x != v["ty"]["t"]])
             v["ty"] = {"t": e, "s": v["ty"]["s"]}
             if v["const"]:
-                v["const"] = {"dtype": e, "shape": v["const"]["shape"], "data": _const_data(rng, e, v["const"]["shape"])}
+                v["const"] = {"dtype": e, "shape": v["const"]["shape"], "data": _const_data(rng, e, v["const"]["shape"])} if e in CONST_ELEMS else None
     if family == "untyped" and vars_:
         v = rng.choice(vars_)
         v["ty"] = None
@@ -744,7 +845,15 @@ def gen_call(rng, op: Op, force: Optional[str] = None) -> dict:
             if "num_outputs" in sch.attributes:
                 # Split-18+: the constructor takes the number of outputs from `num_outputs`
                 call["attrs"]["num_outputs"] = call["out_count"]
-    return call
+    if rng.random() < 0.07:
+        zeroize(rng, call)
+    # the same attribute value spelled as a caller may: tuple / one-shot generator / numpy array /
+    # numpy scalar / bool for 0-1 / int for an integral float
+    for aname, val in call["attrs"].items():
+        opts = spellings_for(val)
+        if opts and rng.random() < 0.12:
+            call.setdefault("spell", {})[aname] = rng.choice(opts)
+    return _ambient(rng, call)
 
 
 # operators that need a minimum rank to be accepted at all
@@ -1114,6 +1223,46 @@ def oracle_model(op: Op, call, explicit_defaults: bool = False, optional_outputs
     return onnx.helper.make_model(graph, opset_imports=[onnx.helper.make_operatorsetid(op.domain, op.modver)])
 
 
+def ty_relation(sp, on) -> str:
+    """How a type `sp` reported by a constructor relates to ONNX's `on` for the same output:
+    'eq' | 'refines' (says more, contradicts nothing) | 'weaker' (forgets something ONNX inferred)
+    | 'untyped' (no type although ONNX inferred one) | 'contradicts'. Pure data, no spox."""
+    if sp == on:
+        return "eq"
+    if sp is None:
+        return "untyped"
+    if on is None:
+        return "refines"
+    if not isinstance(sp, dict) or not isinstance(on, dict):
+        return "contradicts"
+    for k in ("seq", "opt"):
+        if (k in sp) != (k in on):
+            return "contradicts"
+        if k in sp:
+            r = ty_relation(sp[k], on[k])
+            return "weaker" if r == "untyped" else r
+    if "t" not in sp or "t" not in on or sp["t"] != on["t"]:
+        return "contradicts"
+    a, b = sp["s"], on["s"]
+    if b is None:
+        return "refines"
+    if a is None:
+        return "weaker"
+    if len(a) != len(b):
+        return "contradicts"
+    more = less = False
+    for x, y in zip(a, b):
+        if x == y:
+            continue
+        if y is None or (isinstance(x, int) and isinstance(y, str)):
+            more = True
+        elif x is None or (isinstance(x, str) and isinstance(y, int)):
+            less = True
+        else:
+            return "contradicts"  # two different constants / two different symbols
+    return "weaker" if less else "refines" if more else "eq"
+
+
 def has_optional_outputs(op: Op) -> bool:
     O = onnx.defs.OpSchema.FormalParameterOption
     return any(p.option == O.Optional for p in op.schema().outputs)
@@ -1159,7 +1308,7 @@ def from_spox_type(t):
         return None
     if isinstance(t, Tensor):
         dt = np.dtype(t.dtype)
-        e = 8 if dt.kind in ("U", "S", "O") else int(onnx.helper.np_dtype_to_tensor_dtype(dt))
+        e = 8 if dt.kind in ("U", "S", "O") else ELEM_OF_NP[dt] if dt in ELEM_OF_NP else int(onnx.helper.np_dtype_to_tensor_dtype(dt))
         return {"t": e, "s": None if t.shape is None else [d if d is None or isinstance(d, str) else int(d) for d in t.shape]}
     if isinstance(t, SSequence):
         return {"seq": from_spox_type(t.elem_type)}
@@ -1185,7 +1334,48 @@ def make_vars(call):
     return out
 
 
-def spox_attr_value(cls, aname, val):
+def spellings_for(val):
+    """the ways a caller may spell the same attribute value (all accepted by the annotations:
+    Iterable[int], int, float ...)"""
+    if isinstance(val, bool) or isinstance(val, dict) or val is None:
+        return []
+    if isinstance(val, int):
+        return ["npscalar", "npscalar32"] + (["bool"] if val in (0, 1) else [])
+    if isinstance(val, float):
+        return ["npscalar"] + (["npscalar32"] if float(np.float32(val)) == val else []) + (["int"] if val == int(val) else [])
+    if isinstance(val, list):
+        if all(isinstance(x, int) and not isinstance(x, bool) for x in val):
+            return ["tuple", "generator", "nparray", "nparray32"]
+        if all(isinstance(x, float) for x in val):
+            return ["tuple", "generator", "nparray"] + (["nparray32"] if all(float(np.float32(x)) == x for x in val) else [])
+        if all(isinstance(x, str) for x in val):
+            return ["tuple", "generator"]
+    return []
+
+
+def spell(val, how):
+    if how == "tuple":
+        return tuple(val)
+    if how == "generator":
+        return (x for x in list(val))  # one-shot
+    if how == "nparray":
+        return np.array(val, dtype=np.int64 if all(isinstance(x, int) for x in val) else np.float64)
+    if how == "nparray32":
+        return np.array(val, dtype=np.int32 if all(isinstance(x, int) for x in val) else np.float32)
+    if how == "npscalar":
+        return np.int64(val) if isinstance(val, int) else np.float64(val)
+    if how == "npscalar32":
+        return np.int32(val) if isinstance(val, int) else np.float32(val)
+    if how == "bool":
+        return bool(val)
+    if how == "int":
+        return int(val)
+    return val
+
+
+def spox_attr_value(cls, aname, val, how=None):
+    if how and how in spellings_for(val):  # (a history variant may have changed the value: spell it only if it still fits)
+        return spell(val, how)
     if isinstance(val, dict) and "dtype" in val:
         return np.dtype(NP_OF[val["dtype"]])
     if isinstance(val, dict) and "tensor" in val:
@@ -1296,7 +1486,7 @@ def run_spox(op: Op, call, value_prop: bool = False, vs=None, keep_outputs: bool
             else:
                 kwargs[pname] = vs[a]
         for aname, val in call["attrs"].items():
-            kwargs[aname] = spox_attr_value(None, aname, val)
+            kwargs[aname] = spox_attr_value(None, aname, val, (call.get("spell") or {}).get(aname))
         if call.get("sub"):
             idn = module_constructors(op.module)["Identity"]
             sub = call["sub"]
@@ -1371,11 +1561,19 @@ def run_spox(op: Op, call, value_prop: bool = False, vs=None, keep_outputs: bool
             except Exception as e:  # noqa: BLE001
                 res["obs_errors"].append(f"value_prop_backend switch: {type(e).__name__}: {e}"[:200])
 
+        ctx2 = contextlib.nullcontext()
+        if call.get("twl"):
+            try:
+                import spox._future as fut2
+
+                ctx2 = fut2.type_warning_level(getattr(fut2.TypeWarningLevel, call["twl"]))
+            except Exception as e:  # noqa: BLE001
+                res["obs_errors"].append(f"type_warning_level switch: {type(e).__name__}: {e}"[:200])
         onnx.shape_inference.infer_shapes = rec
         if node_mod is not None:
             node_mod.Node.inference = inference
         try:
-            with ctx, (_quiet_fd2() if vp == "onnxruntime" else contextlib.nullcontext()):
+            with ctx, ctx2, (_quiet_fd2() if vp == "onnxruntime" else contextlib.nullcontext()):
                 out = fn(**kwargs)
         except Exception as e:  # noqa: BLE001
             res["raised"] = type(e).__name__
@@ -1409,6 +1607,26 @@ def run_spox(op: Op, call, value_prop: bool = False, vs=None, keep_outputs: bool
                               for k, v in nd.attrs.get_fields().items()],
                 }
                 res["node_cls"] = type(nd)
+                # what the two supplements that run the standard routine first look at (model: loopOwn / compressOwn)
+                try:
+                    if op.name == "Loop":
+                        body = nd.attrs.body.value
+                        n_c = len(body.requested_arguments) - 2
+                        res["node"]["loop"] = {
+                            "results": [from_spox_type(v.type) for v in list(body.requested_results.values())[1:][:n_c]],
+                            "args": [from_spox_type(v.type) for v in body.requested_arguments[2:]]}
+                    elif op.name == "Compress":
+                        res["node"]["compress"] = {"axis": None if nd.attrs.axis is None else int(nd.attrs.axis.value)}
+                    # the declared types of the body's formal arguments (model: loopFormals / scanFormals / seqMapFormals)
+                    if op.name in BODY_OPS:
+                        g = (nd.attrs.then_branch if op.name == "If" else nd.attrs.body).value
+                        res["node"]["formals"] = {
+                            "kind": {"Loop": "loop", "Scan": "scan", "SequenceMap": "seqmap", "If": "if"}[op.name],
+                            "real": [from_spox_type(a.type) for a in (g.requested_arguments or [])]}
+                        if op.name == "Scan":
+                            res["node"]["formals"]["num_scan"] = int(nd.attrs.num_scan_inputs.value)
+                except Exception as e:  # noqa: BLE001
+                    res["obs_errors"].append(f"supplement inputs: {type(e).__name__}: {e}"[:200])
         except Exception as e:  # noqa: BLE001
             res["obs_errors"].append(f"node attributes: {type(e).__name__}: {e}"[:200])
     return res
@@ -1448,6 +1666,31 @@ def model_request(op: Op, call, sp: dict) -> Optional[dict]:
                 req["infer"] = inf
         else:
             req["infer"] = "reject"
+    # Type._to_onnx on the operand types, Type._from_onnx on the protos ONNX answered with (model: toProto / fromProto)
+    try:
+        from spox._type_system import Type as _SType
+
+        tys = []
+        for v in call["vars"]:
+            if v["ty"] is not None and not has_other(v["ty"]) and v["ty"] not in tys:
+                tys.append(v["ty"])
+        real_to = [proto_json(spox_type(t)._to_onnx()) for t in tys]
+        protos, real_from = [], []
+        if sp["captured"] and "result" in sp["captured"][0]:
+            for o in sp["captured"][0]["result"].graph.output:
+                pj = proto_json(o.type)
+                if pj is not None:
+                    protos.append(pj)
+                    real_from.append(from_spox_type(_SType._from_onnx(o.type)))
+        req["to_proto"], req["from_proto"] = tys, protos
+        sp["proto_obs"] = {"to": real_to, "from": real_from}
+    except Exception as e:  # noqa: BLE001
+        sp["proto_obs_error"] = f"{type(e).__name__}: {e}"[:200]
+    if "formals" in sp["node"] and not any(has_other(t) for t in sp["node"]["formals"]["real"]):
+        req["formals"] = {k: v for k, v in sp["node"]["formals"].items() if k != "real"}
+    for k in ("loop", "compress"):
+        if k in sp["node"] and cls is not None and is_patched(cls) and not any(has_other(t) for v in sp["node"][k].values() if isinstance(v, list) for t in v):
+            req[k] = sp["node"][k]
     if sp.get("has_value") is not None and cls is not None:
         keys = []
         for f in dataclasses.fields(cls.Outputs):
@@ -1474,6 +1717,14 @@ def _variant_of(rng, op: Op, base: dict, vars_: list, facet: str):
     O = onnx.defs.OpSchema.FormalParameterOption
     c = copy.deepcopy({k: v for k, v in base.items() if k != "vars"})
     c["vars"] = vars_  # shared list object
+    if facet == "ambient":
+        # the very same call under another ambient setting (type-warning level / value-propagation
+        # mode): neither may change the verdict or leave something behind for the other call
+        if rng.random() < 0.5:
+            c["twl"] = rng.choice([x for x in TWL if x != base.get("twl")])
+        else:
+            c["vp"] = rng.choice([x for x in ("none", "default", "reference") if x != (base.get("vp") or "none")])
+        return c
     if facet == "out_count":
         if not _variadic_output(op) and not base.get("sub"):
             return None
@@ -1609,7 +1860,7 @@ def _variant_of(rng, op: Op, base: dict, vars_: list, facet: str):
     return None
 
 
-FACETS = ["out_count", "attr", "const", "optional", "shape"]
+FACETS = ["out_count", "attr", "const", "optional", "shape", "ambient"]
 
 
 def gen_history(rng, op: Op, want_facet: Optional[str] = None) -> Optional[dict]:
